@@ -761,6 +761,24 @@ func (c *genCtx) newIter(src string, ks *keySpace) int {
 	if src == "m" {
 		c.mutIters = append(c.mutIters, id)
 	}
+	if r.Chance(25) {
+		// the first positioning call of a fresh iterator is a Seek that finds nothing (above
+		// every key, at the limit, below the start), then a step in either direction
+		k := "ffffffff"
+		switch {
+		case lim != "nil" && r.Chance(40):
+			k = lim
+		case st != "nil" && r.Chance(40):
+			k = "00"
+		}
+		c.g.Emit("it %d seek %s", id, k)
+		if r.Chance(50) {
+			c.g.Emit("it %d prev", id)
+		} else {
+			c.g.Emit("it %d next", id)
+		}
+		c.g.Emit("it %d key", id)
+	}
 	return id
 }
 
